@@ -217,3 +217,25 @@ def _approx_contracts():
 
 APPROX_NAMES = ["approx." + f for f in _APPROX]
 _approx_contracts()
+
+
+# ---------------------------------------------------------------------------------------------- discrete.py
+# The per-edge mutation likelihood of the discrete-time methods: Poisson(muts; dt * mutation_rate * span).  The
+# argument of the pmf must be a pure number: dt is a time, mutation_rate is per time and per unit of genome, span a
+# genome length -- so this one contract carries both C06 (T) and C07 (L) for inside_outside / maximization.
+_LIK = dict(params={"muts": "1", "span": "L", "dt": "T", "mutation_rate": "1/(T*L)", "standardize": "bool"},
+            returns="1", props=("C06", "C07"), gen="dim_lik", axes=("T", "L"),
+            types=[("float", 0), ("float", 0), ("float", 1), ("float", 0), ("bool", 0)],
+            notes="scipy.stats.poisson.pmf / logpmf take and return pure numbers (assumed)")
+DimContract("discrete.Likelihoods._lik", **_LIK)
+DimContract("discrete.LogLikelihoods._lik", **_LIK)
+
+# ---------------------------------------------------------------------------------------------- demography.py
+# Polymorphic: time_ago and breakpoints in unit a, the time measure in unit b -> new times in a/b.  Generations ->
+# coalescent units: a = T, b = T (2 Ne);  coalescent -> generations: a = 1, b = 1/T.
+DimContract(
+    "demography.PopulationSizeHistory._change_time_measure",
+    params={"time_ago": "a", "breakpoints": "a", "time_measure": "b"},
+    returns=("tuple", "a/b", "a/b", "1/b"), poly=("a", "b"),
+    props=("C06",), gen="change_time_measure", types=[("float", 1), ("float", 1), ("float", 1)],
+)
